@@ -326,6 +326,8 @@ def prove_contract(session, c, max_paths=4000, time_budget=None, known=()):
                     I.eval_spec(when, spec_locals, ex.module.__dict__, old, ex.cls))))
         heap0 = M.models_rt_heap_snapshot(I, args) if c.modifies_ is not None else None
         body_locals = dict(args)
+        for cv, ck in getattr(c, 'closure_kinds_', {}).items():
+            body_locals[cv] = make_symbolic(I, ck, cv)
         body_locals['__old__'] = old
         for name, _ in c.lets:
             body_locals[name] = spec_locals[name]
